@@ -13,6 +13,8 @@ FLAVOURS = {
                   'ldextra': '-Wl,--wrap=malloc,--wrap=free,--wrap=calloc,--wrap=realloc,--wrap=time,--wrap=clock_gettime,--wrap=gettimeofday,--wrap=getrandom,--wrap=getentropy,--wrap=rand,--wrap=random,--wrap=open,--wrap=fopen,--wrap=clock'},
     'plain-wrap': {'cc': 'gcc', 'cflags': '-O2 -g -DNDEBUG', 'extra_src': ['pv_wrap.c'],
                   'ldextra': '-Wl,--wrap=malloc,--wrap=free,--wrap=calloc,--wrap=realloc,--wrap=time,--wrap=clock_gettime,--wrap=gettimeofday,--wrap=getrandom,--wrap=getentropy,--wrap=rand,--wrap=random,--wrap=open,--wrap=fopen,--wrap=clock'},
+    'fuzz':     {'cc': 'clang', 'cflags': '-O1 -g -fno-omit-frame-pointer -fsanitize=fuzzer-no-link,address,undefined -fno-sanitize-recover=all -fno-sanitize=object-size',
+                 'ldflags': '-fsanitize=fuzzer,address,undefined'},
     # C16: no sanitizer (they change frame layout); eager binding so that the dynamic loader never dumps registers on the monitored stack
     'opt-O0':   {'cc': 'gcc', 'cflags': '-O0 -g -DNDEBUG', 'ldextra': '-Wl,-z,now'},
     'opt-O1':   {'cc': 'gcc', 'cflags': '-O1 -g -DNDEBUG', 'ldextra': '-Wl,-z,now'},
@@ -204,3 +206,27 @@ PROPS['C12'] = {
 MANIFEST_TEXT['C12'] = {'technique': 'runtime monitoring: PBKDF2 monitor with scripted masks + model of the password operation, observed through every seed observer and round trips (ASan/UBSan)',
     'text': 'Seeds x a password alphabet (empty, ASCII, accented NFC/NFD, Hangul, kana with dakuten, fullwidth, ligatures, random Unicode, long) x KDF masks (all-00, all-FF, only the two dropped bits, only byte 18, single bits, only ignored bytes, random, or an argument-mixing stand-in) x up to 7 applications: after each application the monitor must have seen exactly (NFKD(password), length, salt, 16, 10000, 32) and the seed must equal the model in store bytes (incl. recomputed check value), getters and KDF inputs, and must survive store/load and encode/decode; the same password twice must restore the seed bit for bit; NFC/NFD spellings must give identical results.',
     'note': _TB + 'Passwords whose NFKD form does not fit the public buffer are outside the domain (C14 covers their safety).'}
+
+PROPS['C09'] = {
+    'level': 'exploration',
+    'runs': [{'name': 'asan', 'flavour': 'asan', 'driver': 'drv_c09', 'timeout': 1800}],
+    'require': {'outcome.NUM_WORDS': 1000, 'outcome.LANG': 1000, 'outcome.MULT_LANG': 1000, 'outcome.unique.OK': 1000, 'outcome.unique.ERR_CHECKSUM': 1000, 'outcome.unique.ERR_UNSUPPORTED': 1000,
+                'armed.auto.ERR_MEMORY': 1000, 'armed.memory_before_unsupported': 300, 'armed.checksum_before_memory': 300, 'ambiguous.constructed': 500},
+}
+MANIFEST_TEXT['C09'] = {'technique': 'runtime monitoring: relation between the library\'s two decoders on the same input (1 auto + 10 explicit decodes per string), model token count, armed allocator for precedence (ASan/UBSan)',
+    'text': 'For grammar-generated strings (all edit classes, all languages, ambiguous phrases for every overlapping language pair, multi-fault phrases) the automatic decoder is compared with the set of explicit results: NUM_WORDS iff the model token count differs from 16, LANG iff no language recognises all tokens, MULT_LANG iff two or more do (regardless of checksum), else exactly the unique language\'s status, lang_out and seed; with the allocator armed to fail, word-count/language/checksum errors must still win and MEMORY must win over UNSUPPORTED.',
+    'note': _TB + 'The relation needs no matcher model; the token count and precedence rules come from the model. Inputs whose NFKD form exceeds the public buffer are checked for the relation only.'}
+
+PROPS['C14'] = {
+    'level': 'exploration',
+    'runs': [{'name': 'asan', 'flavour': 'asan', 'driver': 'drv_c14', 'timeout': 1800},
+             {'name': 'asan-dbg', 'flavour': 'asan-dbg', 'driver': 'drv_c14', 'env': {'PV_SCALE': '25'}, 'shards': 6, 'timeout': 1800},
+             {'name': 'fuzz-phrase', 'kind': 'fuzz', 'flavour': 'fuzz', 'driver': 'fuzz_api', 'mode': 0, 'runs_quick': 150000, 'runs_thorough': 5000000},
+             {'name': 'fuzz-password', 'kind': 'fuzz', 'flavour': 'fuzz', 'driver': 'fuzz_api', 'mode': 1, 'runs_quick': 100000, 'runs_thorough': 3000000},
+             {'name': 'fuzz-buffer', 'kind': 'fuzz', 'flavour': 'fuzz', 'driver': 'fuzz_api', 'mode': 2, 'runs_quick': 200000, 'runs_thorough': 8000000}],
+    'require': {'inputs.on_readonly_page_before_guard': 10000, 'class.padded-to-buffer-boundary': 5000, 'class.raw-bytes': 1000, 'class.length-edit': 1000,
+                'calls.load.ERR_FORMAT': 1000, 'calls.load.ERR_MEMORY': 1000, 'fuzz.execs.fuzz-phrase': 50000, 'fuzz.execs.fuzz-password': 50000, 'fuzz.execs.fuzz-buffer': 50000, 'calls.crypt.len>=4096': 20, 'calls.decode.ERR_MEMORY.len<size-2': 100},
+}
+MANIFEST_TEXT['C14'] = {'technique': 'runtime monitoring: ASan+UBSan (NDEBUG and assertion-enabled builds) on grammar/boundary/raw inputs with exact-size and read-only-before-guard-page buffers, per-case watchdog, allocator ledger; coverage-guided libFuzzer (clang) on three entry points',
+    'text': 'Arbitrary strings (all grammar classes, lengths around POLYSEED_STR_SIZE, 2x, 64 KiB, invalid UTF-8, raw bytes) are fed as phrases to both decoders and as passwords to crypt, and mutated/random buffers to load, on exact-size heap blocks and on a read-only page ending at an inaccessible guard page; any sanitizer report, signal, assertion abort or watchdog expiry is a violation, as is a status outside the documented set, a modified input, a block left allocated by a failed call or a non-canonical seed. libFuzzer explores the same three entry points coverage-guided, seeded with grammar output.',
+    'note': _TB + 'A clean sanitizer run is not memory safety (intra-object and non-adjacent overflows can escape); the watchdog is generous (120 s per case) and a firing is re-confirmed in a fresh process before it counts.'}
